@@ -264,6 +264,7 @@ def run(ctx):
     r4(ctx, F)
     r6_same_sectioning(ctx, F)
     r7_sections_by_time_only(ctx, F)
+    r8_skills_fed_alike(ctx, F)
     # ---- R5: strains() and difficulty() consult the same Difficulty settings
     import entries
     for mode in MODES:
@@ -483,3 +484,40 @@ def r7_sections_by_time_only(ctx, F):
                     bad='%s::process: %s — how many sections are recorded now depends on the strain state of the skill itself, so two skills of the mode fed the same objects can report '
                         'different numbers of sections (their peaks no longer line up)' % (skill, '; '.join('`%s` (line %s) is conditioned on %s' % (w, ln, sorted(lv)) for (w, ln), lv in sorted(bad.items(), key=str))))
     ctx.floor('C16-R7', n, 9, 'StrainSkill::process implementations')
+
+
+# ---- R8: whoever feeds several skills feeds them under the same conditions (seeds C16-7 / C03-7: `if !relax { self.speed.process(..) }`)
+def r8_skills_fed_alike(ctx, F):
+    """`process` does two jobs: it evaluates the object's strain AND keeps the skill's section clock.  A skill that is skipped for some settings ("its rating is
+    zeroed anyway") stops sectioning: strains() then hands out lists of different lengths for the skills of one mode, and counts kept by the skipped skill
+    differ between the paths that share the shortcut and those that do not.  Decided per feeding function: the dominating boolean facts of every skill
+    `process` call site, minus those common to all sites of the function, must be empty."""
+    import arms
+    nfn = nsites = 0
+    for fn in F.fns:
+        if fn.j.get('cfg_test'):
+            continue
+        sites = []
+        for bi, t in fn.calls():
+            if t['func'].get('name') != 'process' or not t['args']:
+                continue
+            cp = t['func'].get('path') or ''
+            if '::skills::' not in cp and 'StrainSkill' not in cp:
+                continue
+            facts = set()
+            for c, lab in arms.bool_facts(fn, bi):
+                facts.add('%s = %s' % (prov.show(prov.strip(c, names={'likely', 'unlikely'}), maxdepth=6), lab))
+            short = cp.split(' for ')[-1].split('>::')[0] if ' for ' in cp else cp
+            sites.append((short, facts, t.get('ln')))
+        if len(sites) < 2:
+            continue
+        nfn += 1
+        nsites += len(sites)
+        ctx.saw(fn)
+        common = set.intersection(*[x[1] for x in sites])
+        odd = [(sh, sorted(f - common), ln) for sh, f, ln in sites if f - common]
+        ctx.require(not odd, 'C16-R8', 'fed-alike:' + fn.path, '%s feeds %d skills, all under the same conditions' % (fn.path, len(sites)), fn.where(),
+                    bad='%s feeds %s only when %s while the other skills of the mode are fed regardless: the skipped skill stops sectioning, so its strain list (and every '
+                        'count it keeps) no longer lines up with its siblings' % (fn.path, ', '.join(o[0].split('::')[-1] for o in odd), '; '.join(' && '.join(o[1]) for o in odd)))
+    ctx.floor('C16-R8', nfn, 3, 'functions feeding two or more skills')
+    ctx.floor('C16-R8', nsites, 10, 'skill feed sites in them')
